@@ -18,11 +18,24 @@ class Unsupported(Exception):
 
 
 class SymbolicLoop(Exception):
-    def __init__(self, body_key, bb, cond):
-        Exception.__init__(self, "symbolic loop in %s at bb%d" % (body_key, bb))
+    def __init__(self, body_key, bb, cond, fr=None, why=""):
+        Exception.__init__(self, "symbolic loop in %s at bb%d (%s)" % (body_key, bb, why))
         self.body_key = body_key
         self.bb = bb
         self.cond = cond
+        self.fr = fr
+        self.why = why
+
+
+class Out(object):
+    """one way a run ended: how in {'stop','ret'}, at = block for 'stop'"""
+    __slots__ = ("cond", "st", "how", "at")
+
+    def __init__(self, cond, st, how, at):
+        self.cond = cond
+        self.st = st
+        self.how = how
+        self.at = at
 
 
 class Diverged(Exception):
@@ -272,7 +285,7 @@ class State(object):
 
 
 class Frame(object):
-    __slots__ = ("body", "locs", "cfg", "depth", "active", "progress", "nest")
+    __slots__ = ("body", "locs", "cfg", "depth", "active", "progress", "nest", "inloop", "iters")
 
     def __init__(self, body, locs, cfg, depth):
         self.body = body
@@ -281,6 +294,8 @@ class Frame(object):
         self.depth = depth
         self.active = {}  # symbolic switch block -> constant-progress counter when it was entered
         self.nest = {}
+        self.inloop = set()
+        self.iters = {}
         self.progress = 0  # number of switches decided by constants so far (loop tests of constant-trip loops)
 
 
@@ -314,6 +329,12 @@ class Evaluator(object):
         self.panics = []  # reachable explicit panic calls
         self.fmt_calls = []  # formatting sinks reached (C17)
         self.fmt_followed = []
+        self.unroll_limit = 1100
+        self.summarise_loops = False
+        self.loops_log = []
+        self.loop_counter = 0
+        self.pure_memo = {}
+        self.pure_summ = {}
 
     # -------------------------------------------------------------- types
     def ty(self, i):
@@ -860,27 +881,110 @@ class Evaluator(object):
         fr = Frame(body, locs, self.cfg_of(body), depth)
         self.chain.append(key)
         try:
-            st2, how = self.run(st, fr, 0, None)
+            outs = self.run(st, fr, 0, frozenset())
         finally:
             self.chain.pop()
-        if how == "dead":
+        rets = [o for o in outs if o.how == "ret"]
+        if not rets:
             raise Diverged(key)
-        # copy back: run mutates/returns a state; make st reflect it
+        st2 = self.merge_outs(rets, st.assume)
         st.objs = st2.objs
         st.world = st2.world
         st.assume = st2.assume
         rv = st.objs[locs[0]]
-        # free locals
         for l in locs:
             st.objs.pop(l, None)
         return rv if rv is not None else UNIT
 
-    def run(self, st, fr, bb, stop):
+    def call_pure(self, st, key, args, depth):
+        """a callee whose arguments are all scalars is summarised once on symbolic parameters; when the summary has
+        no effect besides its scalar value and every assert in it folded to a constant, calls are answered by
+        substituting the actual arguments into the summary (what a compiler's inliner + GVN would produce)"""
+        sig = (key, tuple(a.w for a in args))
+        summ = self.pure_summ.get(sig)
+        if summ is None:
+            params = [T.sym("param%d:%s" % (i, key.split("::")[-1]), a.w) for i, a in enumerate(args)]
+            m = (len(self.asserts), len(self.calls), len(self.panics), len(self.loops_log), len(self.fmt_calls))
+            st2 = State()
+            st2.next_obj = st.next_obj
+            ok = True
+            try:
+                rv = self.call_body(st2, key, params, depth)
+            except (Unsupported, SymbolicLoop, Diverged):
+                ok = False
+                rv = None
+            new_asserts = self.asserts[m[0]:]
+            ok = ok and isinstance(rv, T.T) and len(self.calls) == m[1] and len(self.panics) == m[2] \
+                and len(self.loops_log) == m[3] and len(self.fmt_calls) == m[4] and st2.world is T.sym("world0", 1) \
+                and all(a.discharged and a.how == "const" for a in new_asserts)
+            logs = list(new_asserts)
+            del self.asserts[m[0]:]
+            del self.calls[m[1]:]
+            del self.panics[m[2]:]
+            del self.loops_log[m[3]:]
+            del self.fmt_calls[m[4]:]
+            summ = (params, rv, logs) if ok else False
+            self.pure_summ[sig] = summ
+        if summ is False:
+            return self.call_body(st, key, args, depth)
+        params, rv, logs = summ
+        self.asserts.extend(logs)
+        return T.subst(rv, dict(zip(params, args)))
+
+    def merge_outs(self, outs, assume):
+        """merge outcomes that ended at the same place (conds are mutually exclusive)"""
+        merged = outs[-1].st
+        for o in reversed(outs[:-1]):
+            merged = self.merge_states(o.cond, o.st, merged)
+        if len(outs) > 1:
+            merged.assume = assume
+        return merged
+
+    def group_outs(self, outs, assume):
+        """one outcome per distinct (how, at)"""
+        if len(outs) <= 1:
+            return outs
+        groups = {}
+        order = []
+        for o in outs:
+            k = (o.how, o.at)
+            if k not in groups:
+                groups[k] = []
+                order.append(k)
+            groups[k].append(o)
+        res = []
+        for k in order:
+            g = groups[k]
+            if len(g) == 1:
+                res.append(g[0])
+            else:
+                res.append(Out(T.or1([o.cond for o in g]), self.merge_outs(g, assume), k[0], k[1]))
+        return res
+
+    def run(self, st, fr, bb, stops, skip_header=None, pred=None):
+        """execute from bb until a block in `stops`, a return, or divergence.
+        -> list of Out(cond, state, how, at); cond is relative to the entry of this run"""
         body = fr.body
         blocks = body["blocks"]
+        pending = []
+        cur = T.TRUE
+        entry_assume = st.assume
+        loops = fr.cfg.loops
+        prev_bb = pred
         while True:
-            if bb == stop:
-                return st, "stop"
+            if bb in stops and bb != skip_header:
+                pending.append(Out(cur, st, "stop", bb))
+                return self.group_outs(pending, entry_assume)
+            if bb in loops and bb != skip_header and not (prev_bb is not None and prev_bb in loops[bb]):
+                outs = self.enter_loop(st, fr, bb, stops)
+                for o in outs:
+                    pending.append(Out(T.and1([cur, o.cond]), o.st, o.how, o.at))
+                return self.group_outs(pending, entry_assume)
+            skip_header = None
+            if bb in fr.inloop:
+                fr.iters[bb] = fr.iters.get(bb, 0) + 1
+                if fr.iters[bb] > self.unroll_limit:
+                    raise SymbolicLoop(body["key"], bb, None, fr, "unroll limit")
             self.steps += 1
             if self.steps > self.max_steps:
                 raise Unsupported("step budget exceeded in %s" % body["key"])
@@ -889,12 +993,14 @@ class Evaluator(object):
                 self.statement(st, fr, s)
             t = blk["t"]
             k = t[0]
+            prev_bb = bb
             if k == "goto":
                 bb = t[1]
             elif k == "ret":
-                return st, "ret"
+                pending.append(Out(cur, st, "ret", None))
+                return self.group_outs(pending, entry_assume)
             elif k == "unreachable":
-                return st, "dead"
+                return self.group_outs(pending, entry_assume)
             elif k == "drop":
                 bb = t[2]
             elif k == "assert":
@@ -902,14 +1008,14 @@ class Evaluator(object):
                 exp = T.TRUE if t[2] else T.FALSE
                 self.record_assert(st, fr, bb, t, cond, exp)
                 if cond.op == "const" and cond is not exp:
-                    return st, "dead"  # always fails: this path panics
+                    return self.group_outs(pending, entry_assume)  # always fails: this path panics
                 if cond.op != "const":
                     st.assume = st.assume + ((cond if t[2] else T.bnot(cond)),)
                 bb = t[4]
             elif k == "call":
                 nxt = self.do_call(st, fr, bb, t)
                 if nxt is None:
-                    return st, "dead"
+                    return self.group_outs(pending, entry_assume)
                 bb = nxt
             elif k == "switch":
                 v = self.operand(st, fr, t[1])
@@ -925,19 +1031,19 @@ class Evaluator(object):
                             bb = tb
                             break
                     continue
-                # decided by the path assumptions?
                 dec = self.decide_switch(st, v, arms, other)
                 if dec is not None:
                     bb = dec
                     continue
-                # symbolic branch: fork and merge at the immediate post-dominator
+                # symbolic branch: fork; merge again at the immediate post-dominator
                 prev = fr.active.get(bb)
                 if prev is not None and (prev == fr.progress or fr.nest.get(bb, 0) > 4200):
-                    # re-entered without passing a constant-decided loop test: a loop with a symbolic exit
-                    raise SymbolicLoop(body["key"], bb, v)
+                    raise SymbolicLoop(body["key"], bb, v, fr, "symbolic exit")
                 join = fr.cfg.ipdom.get(bb)
+                sub_stops = stops | {join} if join is not None else stops
                 fr.active[bb] = fr.progress
                 fr.nest[bb] = fr.nest.get(bb, 0) + 1
+                base_assume = st.assume
                 try:
                     outs = []
                     conds = []
@@ -948,37 +1054,78 @@ class Evaluator(object):
                             continue
                         s2 = st.fork()
                         s2.assume = s2.assume + (c,)
-                        s3, how = self.run(s2, fr, tb, join)
-                        outs.append((c, s3, how))
+                        for o in self.run(s2, fr, tb, sub_stops, pred=bb):
+                            outs.append(Out(T.and1([c, o.cond]), o.st, o.how, o.at))
                     cother = T.and1([T.bnot(c) for c in conds])
                     if cother is not T.FALSE and not self._is_unreachable_block(blocks, other):
                         s2 = st.fork()
                         s2.assume = s2.assume + (cother,)
-                        s3, how = self.run(s2, fr, other, join)
-                        outs.append((cother, s3, how))
+                        for o in self.run(s2, fr, other, sub_stops, pred=bb):
+                            outs.append(Out(T.and1([cother, o.cond]), o.st, o.how, o.at))
                 finally:
                     fr.nest[bb] -= 1
                     if prev is None:
                         fr.active.pop(bb, None)
                     else:
                         fr.active[bb] = prev
-                live = [(c, s, h) for c, s, h in outs if h != "dead"]
-                if not live:
-                    return st, "dead"
-                hows = {h for _, _, h in live}
-                if len(hows) != 1:
-                    raise Unsupported("branches of bb%d end differently in %s" % (bb, body["key"]))
-                how = hows.pop()
-                merged = live[-1][1]
-                for c, s, _ in reversed(live[:-1]):
-                    merged = self.merge_states(c, s, merged)
-                merged.assume = st.assume
-                st = merged
-                if how == "ret":
-                    return st, "ret"
+                joined = [o for o in outs if o.how == "stop" and o.at == join and join is not None and join not in stops]
+                for o in outs:
+                    if o in joined:
+                        continue
+                    pending.append(Out(T.and1([cur, o.cond]), o.st, o.how, o.at))
+                if not joined:
+                    return self.group_outs(pending, entry_assume)
+                st = self.merge_outs(joined, base_assume)
+                st.assume = base_assume
+                jc = T.or1([o.cond for o in joined])
+                cur = T.and1([cur, jc])
                 bb = join
             else:
                 raise Unsupported("terminator %s in %s" % (k, body["key"]))
+
+    # --------------------------------------------------------------- loops
+    def innermost_loop(self, fr, bb):
+        best = None
+        for h, blks in fr.cfg.loops.items():
+            if bb in blks and (best is None or len(blks) < len(fr.cfg.loops[best])):
+                best = h
+        return best
+
+    def enter_loop(self, st, fr, H, stops):
+        """first arrival at loop header H: try to follow the loop concretely; if its exit is not decided by
+        constants (SymbolicLoop from this loop), summarise it from the state at first arrival"""
+        snap = st.fork()
+        snap_progress = fr.progress
+        was_in = H in fr.inloop
+        saved_iters = fr.iters.get(H, 0)
+        fr.inloop.add(H)
+        fr.iters[H] = 0
+        from . import loops as LP
+        mark = LP.log_mark(self)
+        saved_active = dict(fr.active)
+        try:
+            try:
+                return self.run(st, fr, H, stops, skip_header=H)
+            except SymbolicLoop as e:
+                if e.fr is not fr or self.innermost_loop_of_exc(fr, e, H) != H:
+                    raise
+            LP.log_reset(self, mark)
+            fr.progress = snap_progress
+            fr.active = saved_active
+            return self.summarise_loop(snap, fr, H, stops)
+        finally:
+            if not was_in:
+                fr.inloop.discard(H)
+            fr.iters[H] = saved_iters
+
+    def innermost_loop_of_exc(self, fr, e, H):
+        if e.bb in fr.cfg.loops and e.why == "unroll limit":
+            return e.bb
+        return self.innermost_loop(fr, e.bb)
+
+    def summarise_loop(self, st0, fr, H, stops):
+        from . import loops as L
+        return L.summarise(self, st0, fr, H, stops)
 
     def implied(self, st, c):
         """TRUE/FALSE if the 1-bit term c is decided by the assumptions, else None"""
@@ -1100,6 +1247,8 @@ class Evaluator(object):
             if self.chain.count(res) >= 2:
                 return self.P.opaque_call(self, st, ctx, "recursion")
             depth = ctx.fr.depth + 1 if ctx.fr is not None else 0
+            if ctx.args and all(isinstance(a, T.T) for a in ctx.args):
+                return self.call_pure(st, res, ctx.args, depth)
             return self.call_body(st, res, ctx.args, depth)
         return self.P.opaque_call(self, st, ctx, callee.get("why", "no-inline"))
 
